@@ -254,9 +254,26 @@ func WriteFile(name string, data []byte, perm FileMode) error {
 	return err
 }
 
-func Stat(name string) (FileInfo, error)      { return os.Stat(name) }
-func Lstat(name string) (FileInfo, error)     { return os.Lstat(name) }
-func ReadDir(name string) ([]DirEntry, error) { return os.ReadDir(name) }
+// Stat, Lstat and ReadDir observe the directory: scheduling points (a rename of another thread can land between a Stat
+// and the Open that follows it), no crash points
+func Stat(name string) (FileInfo, error) {
+	if err := point("stat", name); err != nil {
+		return nil, err
+	}
+	return os.Stat(name)
+}
+func Lstat(name string) (FileInfo, error) {
+	if err := point("lstat", name); err != nil {
+		return nil, err
+	}
+	return os.Lstat(name)
+}
+func ReadDir(name string) ([]DirEntry, error) {
+	if err := point("readdir", name); err != nil {
+		return nil, err
+	}
+	return os.ReadDir(name)
+}
 func IsNotExist(err error) bool               { return os.IsNotExist(err) }
 func IsExist(err error) bool                  { return os.IsExist(err) }
 func Getwd() (string, error)                  { return os.Getwd() }
